@@ -413,6 +413,17 @@ fn c04(a: &Args) -> Report {
         alt_config2(&mut t);
         specs.push(t);
     }
+    {
+        // blobs written under different numbers of bloom hash functions in one directory
+        let mut t = specs[0].clone();
+        t.name = "C04/seq/mixed-hasher-counts".into();
+        t.alphabet = vec![Op::w(0, 1), Op::w(2, 1), Op::Rot, Op::TryClose, Op::TryRestore, Op::RstOtherHashers, Op::Offload { level: 1 }, Op::d(1, 2)];
+        t.prefix = vec![Op::w(1, 1), Op::Rot];
+        t.wcfg.bloom = BloomCfg::Bits(64);
+        t.keys = vec![0, 1, 2];
+        t.depth = if thorough { 5 } else { 4 };
+        specs.push(t);
+    }
     // from a reopened storage: two closed blobs whose indexes and filters were read from their
     // index files, the third blob re-activated; 70-bit bloom filter
     let mut s = specs[0].clone();
